@@ -1,6 +1,7 @@
 package rv
 
 import (
+	"sort"
 	"fmt"
 	"go/token"
 	"strings"
@@ -11,7 +12,7 @@ import (
 func init() {
 	Registry["C16"] = RuleDef{Module: ".", Run: runC16,
 		Technique:   "same-index correspondence rule on the element-wise and pair-wise reply accessors (output slot i / i-th append is computed from input element i; map entries take the key from position 2i and the value from 2i+1 of a stride-2 walk)",
-		Explanation: "Decides only the positional skeleton of the collection accessors: (R16a) in AsStrSlice, AsIntSlice, AsFloatSlice, AsBoolSlice, AsXRange, AsXRangeSlices, AsZScores (both reply shapes) and DecodeSliceOfJSON every output element is computed from the input element with the same index (the flat ZSCORE shape: output i from input[2i:2i+2]) and every iteration of a full walk contributes its element; (R16b) in AsStrMap, AsIntMap and toMap each entry takes its key from position i and its value from position i+1 of one stride-2 walk starting at 0, so pairs are preserved in order (later duplicates overwrite earlier ones by map semantics); (R16c) AsInt64/AsUint64/AsFloat64 parse text replies with the parser of their own result type over the full 64-bit range in base 10 and take integer replies from intlen; (R16d) no As* helper uses a RESP3-strict To{Int64,Float64,Bool} accessor on reply elements, so the RESP2 shape (numbers as strings) is accepted wherever the RESP3 shape is.",
+		Explanation: "Decides only the positional skeleton of the collection accessors: (R16a) in AsStrSlice, AsIntSlice, AsFloatSlice, AsBoolSlice, AsXRange, AsXRangeSlices, AsZScores (both reply shapes) and DecodeSliceOfJSON every output element is computed from the input element with the same index (the flat ZSCORE shape: output i from input[2i:2i+2]) and every iteration of a full walk contributes its element; (R16b) in AsStrMap, AsIntMap and toMap each entry takes its key from position i and its value from position i+1 of one stride-2 walk starting at 0, so pairs are preserved in order (later duplicates overwrite earlier ones by map semantics); (R16c) AsInt64/AsUint64/AsFloat64 parse text replies with the parser of their own result type over the full 64-bit range in base 10 and take integer replies from intlen; (R16e) AsBool converts an integer reply to true iff it is non-zero; (R16d) no As* helper uses a RESP3-strict To{Int64,Float64,Bool} accessor on reply elements, so the RESP2 shape (numbers as strings) is accepted wherever the RESP3 shape is.",
 		NotDecided:  "which number, boolean or string a scalar conversion yields (arithmetic on runtime contents), the structured helpers for search/aggregate/geo/pop replies, RESP2/RESP3 shape equivalence."}
 }
 
@@ -103,8 +104,52 @@ func scalarParserRule(r *Report) {
 	r.Ob("R16d", nil, "As-helpers-scanned", token.NoPos, nAs >= 25, fmt.Sprintf("%d As* helpers scanned for RESP3-strict element accessors", nAs))
 }
 
+// asBoolRule (R16e): AsBool judges each reply class by its own encoding: an integer reply is true
+// iff it is non-zero (compared with 0), a RESP3 boolean iff its flag is set, a status string iff OK.
+func asBoolRule(r *Report) {
+	fn := r.FnAnchor("R16e", "rueidis.(*RedisMessage).AsBool")
+	if fn == nil {
+		return
+	}
+	n := 0
+	for _, b := range fn.Blocks {
+		for _, in := range b.Instrs {
+			bo, ok := in.(*ssa.BinOp)
+			if !ok || !strings.HasSuffix(Desc(bo.X), ".intlen") {
+				continue
+			}
+			k, isc := ConstInt(bo.Y)
+			if !isc {
+				continue
+			}
+			// which type bytes reach this comparison
+			var tys []string
+			for _, cj := range GuardDNF(b, 4) {
+				for _, g := range cj {
+					if _, op, y, cok := CmpGuard(g); cok && op == token.EQL {
+						if tb, ist := ConstInt(y); ist && tb > 32 && tb < 127 {
+							tys = append(tys, string(rune(tb)))
+						}
+					}
+				}
+			}
+			sort.Strings(tys)
+			tset := strings.Join(dedup(tys), "")
+			n++
+			good := true
+			if strings.Contains(tset, ":") {
+				// integers: non-zero means true
+				good = k == 0 && bo.Op == token.NEQ
+			}
+			r.ObSite("R16e", SiteOf(in), "bool-of-"+tset, good, fmt.Sprintf("an integer reply (:) converts to true iff it is non-zero; this arm serves %q with `intlen %s %d`", tset, bo.Op, k))
+		}
+	}
+	r.Anchor("R16e", "AsBool: intlen comparisons (2)", n == 2)
+}
+
 func runC16(r *Report) {
 	scalarParserRule(r)
+	asBoolRule(r)
 	P := "rueidis.(*RedisMessage)."
 	for _, name := range []string{P + "AsStrSlice", P + "AsIntSlice", P + "AsFloatSlice", P + "AsBoolSlice", P + "AsXRange", P + "AsXRangeSlices", P + "AsZScores", "rueidis.DecodeSliceOfJSON"} {
 		fn := r.FnAnchor("R16a", name)
